@@ -1200,7 +1200,12 @@ impl<'a> GeneratorState<'a> {
                         // A holds the result. The post-increments of the expression are
                         // still pending, and so is Y when it has been borrowed
                         self.acc_in_use = true;
-                        self.purge_deferred_plusplus_and_savey()?;
+                        if !self.deferred_plusplus.is_empty() || self.saved_y {
+                            // The caller relies on the flags describing the returned value
+                            self.sasm(PHP)?;
+                            self.purge_deferred_plusplus_and_savey()?;
+                            self.sasm(PLP)?;
+                        }
                     }
                 } else {
                     if e != ExprType::Nothing {
